@@ -274,6 +274,10 @@ void error_handler (const char *err) {
 
   in_error = 0;
 
+  /* The error has reached a driver-level context (not a catch): the limit error state must not
+   * outlive the failed evaluation, or the next catch() would refuse to catch an ordinary error. */
+  clear_error_state ();
+
   if (current_error_context)
     longjmp (current_error_context->context, 1);
   fatal ("failed longjmp() or no error context for error.");
